@@ -1,20 +1,37 @@
 #!/usr/bin/env python3
-"""guard_mutants.py — systematic 'sliver' experiment: every headroom guard `<= 0x18ff_ffff_ffff_ffff` of the
+"""guard_mutants.py [A|B|C|D] [file:line ...] — systematic 'sliver' experiment: every headroom guard `<= 0x18ff_ffff_ffff_ffff` of the
 library (the test made before a multi-word accumulator is multiplied by ten once more) is widened, one line at a
 time, to the tempting exact limit `<= 0x1999_9999_9999_9999` (which forgets the carry from the lower words, so the
 multiplication wraps for significands in a sliver of relative width ~1e-19 just above 2^(64w)/10). For each mutant
 the quick checks of the properties that exercise the file are run; prints one line per guard.
 Do not run other checks concurrently (they rebuild from /repo's working tree)."""
 import subprocess, re, os, sys, json
-files = {'arith.go': ['C01', 'C02', 'C03', 'C18'], 'convert.go': ['C09'], 'decomposed.go': ['C16', 'C17', 'C18'], 'scan.go': ['C05']}
+FAMILIES = {
+ # widen the x10 headroom guard to the tempting exact limit (forgets the carry from the lower words)
+ 'A': ('<= 0x18ff_ffff_ffff_ffff', '<= 0x1999_9999_9999_9999',
+       {'arith.go': ['C01', 'C02', 'C03', 'C18'], 'convert.go': ['C09'], 'decomposed.go': ['C16', 'C17', 'C18'], 'scan.go': ['C05']}),
+ # the same for the x10000 guard (2^64/10^4 = 0x0006_8db8_bac7_10cb)
+ 'B': ('<= 0x0002_7fff_ffff_ffff', '<= 0x0006_8db8_bac7_10cb',
+       {'arith.go': ['C01', 'C02', 'C03', 'C18'], 'decomposed.go': ['C16', 'C17', 'C18'], 'rounding.go': ['C01', 'C02', 'C05', 'C08', 'C11']}),
+ # off by one on the top word of the largest coefficient: differs only within 2^64 of Cmax
+ 'C': ('> 0x0002_7fff_ffff_ffff', '>= 0x0002_7fff_ffff_ffff',
+       {'rounding.go': ['C01', 'C02', 'C05', 'C08', 'C11'], 'compose.go': ['C14'], 'decimal.go': ['C19']}),
+ 'D': ('< 0x0002_7fff_ffff_ffff', '<= 0x0002_7fff_ffff_ffff',
+       {'rounding.go': ['C01', 'C02', 'C05', 'C08', 'C11']}),
+}
+fam = 'A'
+args = sys.argv[1:]
+if args and args[0] in FAMILIES:
+    fam = args.pop(0)
+PAT, REP, files = FAMILIES[fam]
 env = dict(os.environ, VERIF_REGDIR='/tmp/mutreg', GOFLAGS='-mod=mod', GOPROXY='off', GOSUMDB='off', GOTOOLCHAIN='local')
 rows = []
-only = sys.argv[1:]
+only = args
 for f, props in files.items():
     path = '/repo/' + f
     src = open(path).read().split('\n')
     for i, line in enumerate(src):
-        if '<= 0x18ff_ffff_ffff_ffff' not in line: continue
+        if PAT not in line or (PAT.startswith('<') and not PAT.startswith('<=') and '<= ' + PAT[2:] in line): continue
         tag = '%s:%d' % (f, i + 1)
         if only and tag not in only: continue
         # enclosing function
@@ -22,7 +39,7 @@ for f, props in files.items():
         for j in range(i, -1, -1):
             m = re.match(r'func (\([^)]*\) )?(\w+)', src[j])
             if m: fn = m.group(2); break
-        mut = list(src); mut[i] = line.replace('<= 0x18ff_ffff_ffff_ffff', '<= 0x1999_9999_9999_9999')
+        mut = list(src); mut[i] = line.replace(PAT, REP)
         open(path, 'w').write('\n'.join(mut))
         try:
             det = []
@@ -35,4 +52,4 @@ for f, props in files.items():
         finally:
             subprocess.run(['git', 'checkout', '--', '.'], cwd='/repo')
 subprocess.run(['rm', '-rf', '/tmp/mutreg'])
-json.dump(rows, open('/tmp/guard_mutants.json', 'w'))
+json.dump(rows, open('/tmp/guard_mutants_%s.json' % fam, 'w'))
